@@ -341,7 +341,12 @@ def freeze(ip, ref):
     writes to it are outside the subset (reported as undecided)"""
     o = ip.st.obj(ref)
     o.frozen = True
-    return Rec(o.cls, **o.f)
+    f = dict(o.f)
+    for k, v in list(f.items()):
+        if isinstance(v, MRef) and isinstance(ip.st.mem[v.ident], SBytes):
+            b = ip.st.mem[v.ident]
+            f[k] = SBytes(BYTES, b.n, b.at, b.arr)      # snapshot of the (from now on unshared) buffer
+    return Rec(o.cls, **f)
 
 
 def bytes_find(ip, b, args):
